@@ -527,6 +527,14 @@ theorem prepMember_ok (fs : FS) (m : Member) (ino : Inode) (h : prepMember fs m 
   · cases h; exact ⟨contained_normPath _, by simp⟩
   · cases h; exact ⟨contained_normPath _, by simp⟩
 
+theorem dirOverLink_inv (fs : FS) (m : Member) (h : Inv fs) : Inv (dirOverLink fs m) := by
+  unfold dirOverLink
+  split
+  · split
+    · exact h.setIno _ _ ⟨contained_normPath _, by simp [dirInode]⟩
+    · exact h
+  · exact h
+
 theorem addMembers_inv : ∀ (ms : List Member) (fs : FS) (hl : HL) (fs' : FS) (hl' : HL),
     Inv fs → addMembers fs hl ms = .ok (fs', hl') → Inv fs' := by
   intro ms
@@ -536,7 +544,7 @@ theorem addMembers_inv : ∀ (ms : List Member) (fs : FS) (hl : HL) (fs' : FS) (
     intro fs hl fs' hl' h heq
     simp only [addMembers] at heq
     split at heq
-    · exact ih _ _ _ _ h heq
+    · exact ih _ _ _ _ (dirOverLink_inv fs m h) heq
     · rename_i ino hprep
       have hok := prepMember_ok fs m ino hprep
       have hadd := add_inv addFuel fs hl ino.name ino true h hok.1 hok.2
